@@ -101,3 +101,33 @@ func verifLemmaMappedAddrRoundTrip(m *Message, a *MappedAddress, t AttrType) (Ma
 
 	return got, err
 }
+
+// verifLemmaErrorCodeRoundTrip (C06): an ERROR-CODE (any code the class/number split can carry, any reason within the
+// limit) added to a well-formed message without one is what the getter returns from the re-decoded message.
+func verifLemmaErrorCodeRoundTrip(m *Message, c ErrorCodeAttribute) (ErrorCodeAttribute, error) {
+	if err := c.AddTo(m); err != nil {
+		return ErrorCodeAttribute{}, err
+	}
+	if err := verifLemmaDecodeOfWire(m); err != nil {
+		return ErrorCodeAttribute{}, err
+	}
+	var got ErrorCodeAttribute
+	err := got.GetFrom(m)
+
+	return got, err
+}
+
+// verifLemmaUnknownAttrsRoundTrip (C06): a list of attribute types added as UNKNOWN-ATTRIBUTES (16-bit entries) to a
+// well-formed message without one is what the getter returns from the re-decoded message.
+func verifLemmaUnknownAttrsRoundTrip(m *Message, a UnknownAttributes) (UnknownAttributes, error) {
+	if err := a.AddTo(m); err != nil {
+		return nil, err
+	}
+	if err := verifLemmaDecodeOfWire(m); err != nil {
+		return nil, err
+	}
+	var got UnknownAttributes
+	err := got.GetFrom(m)
+
+	return got, err
+}
